@@ -29,6 +29,8 @@ def replay_roundtrip(msg, enc, hexbm, cfg):
     for k in m:
         if k.startswith('DE') and cfgs.get(k[2:], {}).get('field_processor') in ('PDS', 'ICC', 'DE43'):
             allowed |= {x for x in d if x.startswith(('PDS', 'TAG', 'ICC_DATA', 'DE43_'))}
+    if any(k.startswith('PDS') for k in m):
+        allowed |= {'DE%d' % c for c in ref.PDS_CARRIERS}
     extra = [k for k in d if k not in allowed]
     if extra:
         return True, 'extra keys %s' % extra, 'C01/extra'
